@@ -477,6 +477,9 @@ func HarnessC34ParsePresenceCids() { zz34Parse(2) }
 // symbolic; entries are well-formed; a presence may name the very CID the first block hashes to.
 func HarnessC34ParseBlocks() { zz34Parse(1) }
 
+// HarnessC34ParseBlocksAllLengths: the same with its own parameters (thorough tier: every truncation length).
+func HarnessC34ParseBlocksAllLengths() { zz34Parse(1) }
+
 func zz34Parse(mode int) {
 	pool := zz34Pool()
 	pbm := &pb.Message{}
